@@ -294,6 +294,13 @@ def recover (d : Disk) : Disk := { d with kv := d.kv.replay d.wal }
 def completed (d : Disk) (p : Promotion) : Disk :=
   { wal := p.batch, kv := d.kv.replay p.batch, stable := p.height }
 
+/-- start-up on the bytes of tmp.data: `none` = the scan fails (`FileQueue.Start` panics) or never ends;
+    otherwise every record the scan returns is redelivered to the store -/
+def recoverBytes (kv : Store) (walBytes : Bytes) : Option Store :=
+  match (scan walBytes).stop with
+  | .eof => some (kv.replay (scan walBytes).recs)
+  | _ => none
+
 /-- what the property's observables can see: the key/value contents and the stable pointer -/
 def Disk.sameView (a b : Disk) : Prop := a.kv = b.kv ∧ a.stable = b.stable
 
